@@ -453,6 +453,9 @@ func main() {
 	})
 	// system common
 	ctx.Jobs("loopback-options", 1, func(int) { loopbackOptions(); ownership(); loopbackSequences() })
+	if !ctx.IsChild() {
+		ctx.RacePairs("constructors")
+	}
 	ctx.Jobs("syscommon", 4, func(j int) {
 		lp := newLoop()
 		for p := j; p < 65536; p += 4 {
